@@ -27,9 +27,10 @@ func (m *PanMap) Inspect() string {
 	var out bytes.Buffer
 	pairs := []Pair{}
 
-	// NOTE: refer map because range cannot treat map pointer
-	for _, p := range *m.Pairs {
-		pairs = append(pairs, p)
+	// NOTE: pairs are collected in insertion order (not by ranging over the inner map)
+	// so that keys with the same printed form are always printed in the same order
+	for _, h := range *m.HashKeys {
+		pairs = append(pairs, (*m.Pairs)[h])
 	}
 
 	out.WriteString("%{")
@@ -56,9 +57,10 @@ func (m *PanMap) Repr() string {
 	var out bytes.Buffer
 	pairs := []Pair{}
 
-	// NOTE: refer map because range cannot treat map pointer
-	for _, p := range *m.Pairs {
-		pairs = append(pairs, p)
+	// NOTE: pairs are collected in insertion order (not by ranging over the inner map)
+	// so that keys with the same printed form are always printed in the same order
+	for _, h := range *m.HashKeys {
+		pairs = append(pairs, (*m.Pairs)[h])
 	}
 
 	out.WriteString("%{")
